@@ -1178,8 +1178,8 @@ Proof.
   split; intros N; unfold mid_write, mid_read; rewrite verify_range_reject by auto; reflexivity.
 Qed.
 
-(* ------------------------------------------------------------------ ADFH: the stride defect, by computation *)
-(* cgio range 1:5:2 on a 5-element node: ADF visits 3 elements, ADFH selects floor(5/2) = 2; read into a
+(* ------------------------------------------------------------------ ADFH: the stride defect (historical), by computation *)
+(* ADFH before /repo commit 358f914 (variant AdfhOld / back end ADFH_OLD).  cgio range 1:5:2 on a 5-element node: ADF visits 3 elements, ADFH selects floor(5/2) = 2; read into a
    3-element buffer ADF succeeds and ADFH fails with UNEQUAL_MEMORY_AND_DISK_DIMS (49).
    cgio range 2:3:4: ADF visits one element, ADFH rejects the stride (37). *)
 Definition wit_s : list dsel := [mkD 5 1 5 2].
@@ -1195,19 +1195,25 @@ Qed.
 
 Lemma adfh_stride_refuted :
   sel_ok wit_s /\ sel_ok wit_m /\
-  adf_walk w64 wit_s = inr [0; 2; 4] /\ adfh_walk true wit_s = inr [0; 2] /\
+  adf_walk w64 wit_s = inr [0; 2; 4] /\ adfh_walk AdfhOld true wit_s = inr [0; 2] /\
   xfer_read ADF [10; 20; 30; 40; 50] [0; 0; 0] wit_s wit_m = inr [10; 30; 50] /\
-  xfer_read ADFH [10; 20; 30; 40; 50] [0; 0; 0] wit_s wit_m = inl UnequalDims /\
+  xfer_read ADFH_OLD [10; 20; 30; 40; 50] [0; 0; 0] wit_s wit_m = inl UnequalDims /\
+  xfer_read ADFH [10; 20; 30; 40; 50] [0; 0; 0] wit_s wit_m = inr [10; 30; 50] /\
   sel_ok wit_s2 /\ sel_ok wit_m2 /\
   xfer_read ADF [10; 20; 30; 40; 50] [0] wit_s2 wit_m2 = inr [20] /\
-  xfer_read ADFH [10; 20; 30; 40; 50] [0] wit_s2 wit_m2 = inl BadStride.
+  xfer_read ADFH_OLD [10; 20; 30; 40; 50] [0] wit_s2 wit_m2 = inl BadStride /\
+  xfer_read ADFH [10; 20; 30; 40; 50] [0] wit_s2 wit_m2 = inr [20] /\
+  (* a successful but different transfer: write 2:4:2 from a 4-element buffer, range 1:4:3 *)
+  xfer_write ADF [10; 20; 30; 40; 50] [1; 2; 3; 4] [mkD 5 2 4 2] [mkD 4 1 4 3] = inr [10; 1; 30; 4; 50] /\
+  xfer_write ADFH_OLD [10; 20; 30; 40; 50] [1; 2; 3; 4] [mkD 5 2 4 2] [mkD 4 1 4 3] = inr [10; 1; 30; 40; 50] /\
+  xfer_write ADFH [10; 20; 30; 40; 50] [1; 2; 3; 4] [mkD 5 2 4 2] [mkD 4 1 4 3] = inr [10; 1; 30; 4; 50].
 Proof.
   destruct sel_ok_dec_wit as [A [B [C D]]].
   split; [exact A|]. split; [exact B|].
   split; [vm_compute; reflexivity|]. split; [vm_compute; reflexivity|].
-  split; [vm_compute; reflexivity|]. split; [vm_compute; reflexivity|].
+  split; [vm_compute; reflexivity|]. split; [vm_compute; reflexivity|]. split; [vm_compute; reflexivity|].
   split; [exact C|]. split; [exact D|].
-  split; vm_compute; reflexivity.
+  repeat (split; [vm_compute; reflexivity|]). vm_compute; reflexivity.
 Qed.
 
 (* the undocumented read shortcut accepts ranges that lie outside the array (rind limits included) as long
@@ -1247,6 +1253,10 @@ Qed.
 (* ------------------------------------------------------------------ ADFH: agreement with ADF *)
 Definition divides_extent (d : dsel) : Prop := (d_end d - d_start d + 1) mod d_stride d = 0.
 
+(* when the variant's point count is the number of points of the box *)
+Definition ver_ok (v : adfh_ver) (ds : list dsel) : Prop :=
+  match v with AdfhCur => True | AdfhOld => Forall divides_extent ds end.
+
 Lemma floor_count_npts d : dvalid d -> divides_extent d ->
   Z.quot (d_end d - d_start d + 1) (d_stride d) = npts d.
 Proof.
@@ -1257,6 +1267,16 @@ Proof.
   { symmetry. apply (Z.div_unique_pos _ _ _ (d_stride d - 1)); [lia|]. lia. }
   lia.
 Qed.
+
+Lemma adfh_count_npts v d : dvalid d -> (v = AdfhCur \/ divides_extent d) -> adfh_count v d = npts d.
+Proof.
+  intros V H. destruct v; simpl.
+  - destruct H as [H|H]; [discriminate|]. apply floor_count_npts; auto.
+  - destruct V as [? [? [? ?]]]. unfold npts. rewrite Z.quot_div_nonneg by lia. reflexivity.
+Qed.
+
+Lemma ver_ok_cons v d r : ver_ok v (d :: r) -> (v = AdfhCur \/ divides_extent d) /\ ver_ok v r.
+Proof. destruct v; simpl; [|auto]. intros H; inversion H; auto. Qed.
 
 Lemma flat_map_single {A B} (f : A -> B) l : flat_map (fun c => [f c]) l = map f l.
 Proof. induction l; simpl; congruence. Qed.
@@ -1293,13 +1313,13 @@ Proof.
   replace (c - 1 + s) with (c + s - 1) by ring. apply IH.
 Qed.
 
-Lemma h5_points_box : forall ds, valid ds -> Forall divides_extent ds ->
-  h5_points (adfh_sel ds) = map phi (box ds).
+Lemma h5_points_box v : forall ds, valid ds -> ver_ok v ds ->
+  h5_points (adfh_sel v ds) = map phi (box ds).
 Proof.
   unfold adfh_sel. induction ds as [|d r IH]; intros V Dv; [reflexivity|].
-  inversion V as [|? ? Vd Vr]; subst. inversion Dv as [|? ? Dd Dr]; subst.
+  inversion V as [|? ? Vd Vr]; subst. apply ver_ok_cons in Dv. destruct Dv as [Dd Dr].
   cbn [map rev]. unfold adfh_triple at 2. rewrite h5_points_snoc, (IH Vr Dr).
-  rewrite floor_count_npts by auto. rewrite box_cons, map_flat_map, flat_map_map.
+  rewrite adfh_count_npts by auto. rewrite box_cons, map_flat_map, flat_map_map.
   apply flat_map_ext. intros tl. unfold grow. rewrite map_map. unfold range1.
   rewrite cnt_from_pred, map_map. apply map_ext. intros i. reflexivity.
 Qed.
@@ -1325,11 +1345,11 @@ Qed.
 Lemma cvalid_length ds cur : cvalid ds cur -> length ds = length cur.
 Proof. induction 1; simpl; auto. Qed.
 
-Lemma adfh_check_ok u : forall ds, valid ds -> prodZ (dims_of ds) < 2 ^ 63 -> Forall divides_extent ds ->
-  adfh_check u ds = None.
+Lemma adfh_check_ok v u : forall ds, valid ds -> prodZ (dims_of ds) < 2 ^ 63 -> ver_ok v ds ->
+  adfh_check v u ds = None.
 Proof.
   induction ds as [|d r IH]; intros V B Dv; [reflexivity|].
-  inversion V as [|? ? Vd Vr]; subst. inversion Dv as [|? ? Dd Dr]; subst.
+  inversion V as [|? ? Vd Vr]; subst. apply ver_ok_cons in Dv. destruct Dv as [Dd Dr].
   simpl in B. fold (prodZ (dims_of r)) in B.
   pose proof (prodZ_pos _ (dims_of_valid_pos r Vr)).
   pose proof Vd as [? [? [? ?]]]. assert (2 ^ 63 < W64) by reflexivity.
@@ -1340,12 +1360,14 @@ Proof.
   rewrite Ew. destruct (Z.ltb_spec (d_dim d) (d_end d)); [lia|].
   destruct (Z.ltb_spec (d_end d) (d_start d)); [lia|].
   destruct (Z.ltb_spec (d_stride d) 1); [lia|]. simpl orb.
-  destruct (Z.ltb_spec (d_end d - d_start d + 1) (d_stride d)) as [Lt|Ge].
-  { unfold divides_extent in Dd. rewrite Z.mod_small in Dd by lia. lia. }
-  apply IH; auto. nia.
+  assert (G : match v with AdfhOld => d_end d - d_start d + 1 <? d_stride d | AdfhCur => false end = false).
+  { destruct v; auto. destruct Dd as [Dd|Dd]; [discriminate|].
+    destruct (Z.ltb_spec (d_end d - d_start d + 1) (d_stride d)) as [Lt|Ge]; auto.
+    unfold divides_extent in Dd. rewrite Z.mod_small in Dd by lia. lia. }
+  rewrite G. apply IH; auto. nia.
 Qed.
 
-Lemma adfh_walk_ok u ds : sel_ok ds -> Forall divides_extent ds -> adfh_walk u ds = inr (spec_positions ds).
+Lemma adfh_walk_ok v u ds : sel_ok ds -> ver_ok v ds -> adfh_walk v u ds = inr (spec_positions ds).
 Proof.
   intros [_ [V B]] Dv. unfold adfh_walk. rewrite adfh_check_ok by auto. f_equal.
   rewrite h5_points_box by auto. rewrite map_map. unfold spec_positions.
@@ -1353,6 +1375,15 @@ Proof.
   pose proof (box_cvalid ds V) as F. rewrite Forall_forall in F. specialize (F _ Hi).
   unfold dims_of. rewrite map_length. apply cvalid_length; auto.
 Qed.
+
+(* the current ADFH code agrees with ADF for ALL strides >= 1 *)
+Lemma adfh_cur_walk_ok u ds : sel_ok ds -> adfh_walk AdfhCur u ds = inr (spec_positions ds).
+Proof. intros OK. apply adfh_walk_ok; simpl; auto. Qed.
+
+(* the old code agreed only when every stride divides its extent *)
+Lemma adfh_old_walk_ok u ds : sel_ok ds -> Forall divides_extent ds ->
+  adfh_walk AdfhOld u ds = inr (spec_positions ds).
+Proof. intros OK D. apply adfh_walk_ok; simpl; auto. Qed.
 
 (* unit strides (everything the mid level ever asks for) divide every extent *)
 Lemma unit_stride_divides ds : Forall (fun d => d_stride d = 1) ds -> Forall divides_extent ds.
@@ -1362,18 +1393,24 @@ Qed.
 
 (* ------------------------------------------------------------------ both back ends *)
 Definition stride_ok (b : backend) (ds : list dsel) : Prop :=
-  match b with ADF => True | ADFH => Forall divides_extent ds end.
+  match b with ADF => True | ADFH => True | ADFH_OLD => Forall divides_extent ds end.
+
+Lemma adfh_pairs_ok v sds mds : sel_ok sds -> sel_ok mds -> ver_ok v sds -> ver_ok v mds ->
+  adfh_pairs v sds mds =
+    if prodZ (counts sds) =? prodZ (counts mds) then inr (spec_positions sds, spec_positions mds)
+    else inl UnequalDims.
+Proof.
+  intros OKs OKm Ss Sm. pose proof OKs as [_ [Vs _]]. pose proof OKm as [_ [Vm _]].
+  unfold adfh_pairs. rewrite !adfh_walk_ok by auto. rewrite !spec_positions_length by auto.
+  destruct (prodZ (counts sds) =? prodZ (counts mds)); reflexivity.
+Qed.
 
 Lemma lo_pairs_ok b sds mds : sel_ok sds -> sel_ok mds -> stride_ok b sds -> stride_ok b mds ->
   lo_pairs b sds mds =
     if prodZ (counts sds) =? prodZ (counts mds) then inr (spec_positions sds, spec_positions mds)
     else inl UnequalDims.
 Proof.
-  intros OKs OKm Ss Sm. destruct b; [apply lo_pairs_adf_ok; auto|].
-  pose proof OKs as [_ [Vs _]]. pose proof OKm as [_ [Vm _]].
-  unfold lo_pairs. simpl in Ss, Sm. rewrite !adfh_walk_ok by auto.
-  rewrite !spec_positions_length by auto.
-  destruct (prodZ (counts sds) =? prodZ (counts mds)); reflexivity.
+  intros OKs OKm Ss Sm. destruct b; [apply lo_pairs_adf_ok; auto| |]; apply adfh_pairs_ok; simpl; auto.
 Qed.
 
 Lemma lo_write_any b file mem sds mds :
@@ -1499,3 +1536,42 @@ Lemma storage_sel_write old sd :
   storage_sel OpWrite old sd =
   map (fun v => mkD (v_dim v) (v_rmin v + shift old v) (v_rmax v + shift old v) 1) sd.
 Proof. reflexivity. Qed.
+
+(* the current back ends need no stride hypothesis *)
+Definition current (b : backend) : Prop := b <> ADFH_OLD.
+Lemma current_stride_ok b ds : current b -> stride_ok b ds.
+Proof. destruct b; simpl; auto. intros H; exfalso; apply H; reflexivity. Qed.
+
+Lemma lo_write_cur b file mem sds mds :
+  current b -> sel_ok sds -> sel_ok mds ->
+  lenZ file = prodZ (dims_of sds) -> prodZ (counts sds) = prodZ (counts mds) ->
+  exists file', xfer_write b file mem sds mds = inr file' /\
+                transfers file file' mem (spec_positions sds) (spec_positions mds).
+Proof. intros C OKs OKm. apply lo_write_any; auto using current_stride_ok. Qed.
+
+Lemma lo_read_cur b file mem sds mds :
+  current b -> sel_ok sds -> sel_ok mds ->
+  lenZ mem = prodZ (dims_of mds) -> prodZ (counts sds) = prodZ (counts mds) ->
+  exists mem', xfer_read b file mem sds mds = inr mem' /\
+               transfers mem mem' file (spec_positions mds) (spec_positions sds).
+Proof. intros C OKs OKm. apply lo_read_any; auto using current_stride_ok. Qed.
+
+Lemma lo_unequal_cur b sds mds :
+  current b -> sel_ok sds -> sel_ok mds ->
+  prodZ (counts sds) <> prodZ (counts mds) -> lo_pairs b sds mds = inl UnequalDims.
+Proof. intros C OKs OKm. apply lo_unequal_any; auto using current_stride_ok. Qed.
+
+(* ADFH rejects what ADF rejects: a range that is not inside the array *)
+Lemma adfh_check_invalid v u : forall ds, Forall (fun d => 0 <= d_end d < W64) ds -> ~ valid ds ->
+  exists e, adfh_check v u ds = Some e.
+Proof.
+  induction ds as [|d r IH]; intros R N; [exfalso; apply N; constructor|].
+  inversion R as [|? ? Rd Rr]; subst. cbn [adfh_check]. unfold adfh_check1.
+  destruct (Z.ltb_spec (d_start d) 1); [eexists; reflexivity|].
+  assert (Ew : (if u then w64 (d_end d) else d_end d) = d_end d) by (destruct u; auto; apply w64_small; auto).
+  rewrite Ew. destruct (Z.ltb_spec (d_dim d) (d_end d)); [eexists; reflexivity|].
+  destruct (Z.ltb_spec (d_end d) (d_start d)); [eexists; reflexivity|].
+  destruct (Z.ltb_spec (d_stride d) 1); [eexists; reflexivity|]. simpl orb.
+  destruct (match v with AdfhOld => d_end d - d_start d + 1 <? d_stride d | AdfhCur => false end); [eexists; reflexivity|].
+  apply IH; auto. intros Vr. apply N. constructor; auto. unfold dvalid. lia.
+Qed.
